@@ -33,7 +33,7 @@ Qed.
 (* Pooled contexts: the source follows the discipline (translator, every function that takes a context) ... *)
 Theorem C10_source_follows_pool_discipline :
   pool_use_after_release = [] /\ pool_returns_pooled = [] /\ List.length pool_functions <> 0%nat.
-Proof. repeat split; try reflexivity. vm_compute. discriminate. Qed.
+Proof. split; [reflexivity|split; [reflexivity|]]. vm_compute. intro H; discriminate H. Qed.
 
 (* ... and under the discipline every call gets its own data back from its context, whatever the schedule *)
 Theorem C10_pool_result_as_alone : forall inputs schedule x res,
